@@ -921,12 +921,14 @@ def p_info_unescaped(case):
 
 
 def p_nested_empty_items_hr(case):
-    """bullet items nested as first children at least three deep ending in an empty item are spelled
-    `- - - ` (or `* * * `): a thematic break"""
+    """bullet items nested as first children at least three deep ending in an empty item, or in an item
+    whose first block is an HTML block (written on the next line), are spelled `- - - ` (or `* * * `)
+    alone on a line: a thematic break"""
     if case.opts.get("list_style") == "plus":
         return False
     for it in case.nodes("Item"):
-        if it.ch or it.parent.f[0] != "b":
+        # empty, or starting with a block the formatter begins on the line AFTER the markers (HTML block)
+        if (it.ch and it.ch[0].kind != "HtmlBlock") or it.parent.f[0] != "b":
             continue
         d, n = 1, it
         while n.parent.prev() is None and n.parent.parent is not None and n.parent.parent.kind == "Item" and n.parent.parent.parent.f[0] == "b" and n.parent.parent.ch[0] is n.parent:
